@@ -33,7 +33,17 @@ RULE = ('a case = (reference FRU device: 2-4 FRU ids 0..255 incl. id 0 with dist
         '(Props/C10.write_*_any_chunk); 0 and > 255 are compared with the model only.  Acknowledges that differ from '
         'the chunk in BOTH directions: fault kind a (chunk stored as sent, acknowledge names clen+1 / clen+2..8 / FFh / '
         'clen-1) in random and directed histories (complete write - same write with chunk k mis-acknowledged - read '
-        'back) for every named chunk size.')
+        'back) for every named chunk size.  SEVERAL MIS-ACKNOWLEDGED CHUNKS IN ONE WRITE: fault plans with 2..4 '
+        'deviating acknowledges (multi_ack_plan: pairs short-then-long and long-then-short, adjacent and first/last '
+        'chunk, triples, quadruples whose deviations SUM TO ZERO, and some that do not; a smaller count as fault a or as '
+        'fault s = only that many bytes stored) - on a fresh object for every named / default / random chunk size (all '
+        '1..255 thorough) with the last chunk full or short, on 60 % of the random multi-chunk writes, in the random '
+        'histories (35 % of the faulted writes, resumed behind what was stored) and as directed history complete write '
+        '- write under the plan - resumed - read back; search() sweeps every pair (both orders) and triple of chunks of '
+        '2..5-chunk writes for the named sizes.  The write oracle reads the REQUEST TRACE: the first Write FRU Data '
+        'acknowledged with another count than it carried must be the LAST exchange of the write and the write must end '
+        'in an exception (signatures count-mismatch[:larger] = one deviation, success; count-mismatch:several = two or '
+        'more, success; count-mismatch:reported-late = requests went on after the deviation).')
 ASSUMPTIONS = [
     'the device is the Lean reference device (Spec/FruDevice.lean): limit enforced by rejecting (or, second mode, by '
     'serving short); reads outside the area are refused with C9h; it never serves zero bytes; a write stores at most '
@@ -50,6 +60,10 @@ ASSUMPTIONS = [
     'faultless_plan_is_reference_device); what a write must raise on an error completion code is C08, here only a short '
     'acknowledge must end in an exception and a read that was answered an injected error may fail but never return '
     'other bytes',
+    'the property\'s "reports an error when the device acknowledges a different byte count" is read per Write FRU Data '
+    'request: the error is due at the FIRST deviating acknowledge and no further request of that write may follow it '
+    '(Props/C10.write_raises_at_first_count_mismatch); a library that only compares a total after the last chunk is '
+    'reported (:several when deviations cancel, :reported-late otherwise)',
 ]
 TRUSTED = ['harness/translate/loops10.py', 'harness/sim/dev10.py', 'harness/props/c10.py (generators, oracle)']
 
@@ -293,6 +307,17 @@ def _effective(faults, trace):
     return out
 
 
+def _deviations(trace):
+    """[(k, sent, acknowledged)] for every Write FRU Data exchange of the trace that the device answered
+    'completion code 00h, count written' with a count that differs from the data bytes the request carried -
+    read off the wire, whatever made the device do so (fault plan, per-write limit)"""
+    out = []
+    for k, t in enumerate(trace):
+        if t[0] == 0x12 and len(t[1]) >= 3 and len(t[2]) == 2 and t[2][0] == 0 and t[2][1] != len(t[1]) - 3:
+            out.append((k, len(t[1]) - 3, t[2][1]))
+    return out
+
+
 def judge(ctx, dev, op, out, trace, dump, case=None, faults=()):
     """Property oracle on the real code's behaviour.  Reports through ctx.violate.
     `dev` describes the device AT THE MOMENT the operation starts (in a history: the contents dumped
@@ -341,18 +366,34 @@ def judge(ctx, dev, op, out, trace, dump, case=None, faults=()):
         if not 1 <= wl <= 255:
             return      # not a chunk size (0: ValueError before any request; > 255: more than an acknowledge can count)
         first = min(wl, len(data))      # the longest chunk of this write
+        devs = _deviations(trace)
+        if devs:
+            # an acknowledge that names another count than its request carried (fewer or more; because of a fault
+            # plan or of the device's own per-write limit) must be reported, and AT that acknowledge: it is the
+            # last exchange of the write (Props/C10.write_raises_at_first_count_mismatch).  Judged on the wire.
+            k, sent, ack = devs[0]
+            acks = ', '.join('request %d: %d for %d' % (i, a, c) for i, c, a in devs[:6])
+            if out.startswith('ok'):
+                if len(devs) > 1:
+                    sig = 'C10:write_fru_data:count-mismatch:several'
+                    what = ('%d Write FRU Data requests of one write_fru_data were acknowledged with another count '
+                            'than they carried (%s; the deviations sum to %+d) and write_fru_data reported success'
+                            % (len(devs), acks, sum(a - c for _, c, a in devs)))
+                else:
+                    sig = 'C10:write_fru_data:count-mismatch' + (':larger' if ack > sent else '')
+                    what = ('the device acknowledged %s bytes than sent (%d for %d) and write_fru_data reported '
+                            'success' % ('more' if ack > sent else 'fewer', ack, sent))
+                ctx.violate(sig, what, case, expected='an exception at request %d' % k, observed=out)
+            elif len(trace) > k + 1:
+                ctx.violate('C10:write_fru_data:count-mismatch:reported-late',
+                            'request %d of the write was acknowledged with %d bytes for %d sent; write_fru_data went on '
+                            'with %d more request(s) (acknowledged: %s) before it ended with %s'
+                            % (k, ack, sent, len(trace) - k - 1, acks, out[:60]), case,
+                            expected='an exception after request %d, no further request' % k,
+                            observed='%s after %d requests: %s' % (out[:60], len(trace), dev10.show_trace(trace)[:300]))
+            return
         if hit:
-            # chunk k was answered with an error code (not judged here: C08), stored only n of its bytes, or
-            # was acknowledged with another count (possibly a larger one): a different count than sent must
-            # end in an exception
-            for k, t, v in hit:
-                if t in ('s', 'a') and out.startswith('ok'):
-                    sent = len(trace[k][1]) - 3
-                    more = t == 'a' and v % 256 > sent
-                    ctx.violate('C10:write_fru_data:count-mismatch' + (':larger' if more else ''),
-                                'the device acknowledged %s bytes than sent (%d for %d) and write_fru_data reported '
-                                'success' % ('more' if more else 'fewer', v % 256 if t == 'a' else v, sent),
-                                case, expected='an exception', observed=out)
+            # a request was answered with an error completion code (what that must raise is C08)
             return
         if dev['wmax'] >= first:
             want = dict(store)
@@ -503,8 +544,8 @@ def shrink_history(ctx_cls, drv, dev, steps, k, sig):
     return steps
 
 
-def history_case(ctx, drv, dev, steps, shipped, tag):
-    res = run_history(drv, dev, steps, shipped, compare=True)
+def history_case(ctx, drv, dev, steps, shipped, tag, compare=True):
+    res = run_history(drv, dev, steps, shipped, compare=compare)
     ctx.count('history:' + tag)
     ctx.count('history-steps', len(steps))
     for k, r in enumerate(res):
@@ -525,6 +566,8 @@ def history_case(ctx, drv, dev, steps, shipped, tag):
             else:
                 v['case'] = {'dev': cur, 'steps': [steps[k]], 'step': 0}
             ctx.violate(v['signature'], v['what'], v['case'], expected=v['expected'], observed=v['observed'])
+        if not compare:
+            continue
         parts = model.split(' | ')
         code = [out, dev10.show_trace(trace), dump]
         if parts != code:
@@ -578,9 +621,92 @@ def _prior_op(rng, dev):
     return ['inv', str(fid)]
 
 
+def _chunk_lens(n, wl):
+    return [min(wl, n - i) for i in range(0, n, wl)]
+
+
+def _zero_sum(rng, m, dmax):
+    """m non-zero deviations that sum to zero, |d| <= dmax where possible"""
+    dmax = max(1, dmax)
+    if m == 2:
+        d = rng.randrange(1, dmax + 1)
+        return [-d, d]
+    if m == 3:
+        a, b = rng.randrange(1, dmax + 1), rng.randrange(1, dmax + 1)
+        return [-(a + b), a, b]
+    a, b = rng.randrange(1, dmax + 1), rng.randrange(1, dmax + 1)
+    return rng.choice([[-a, a, -b, b], [-(a + b + 1), a, b, 1], [-a, -b, a, b]])
+
+
+SHAPES = ['pair-short-first-adjacent', 'pair-long-first-adjacent', 'pair-short-first-apart', 'pair-long-first-apart',
+          'triple', 'quad', 'not-cancelling']
+
+
+def multi_ack_plan(rng, lens, shape=None):
+    """A fault plan that mis-acknowledges 2..4 chunks of ONE write whose chunk lengths are `lens` (>= 2 chunks):
+    deviations that sum to ZERO (a total over the whole write cannot see them) - pairs short-then-long and
+    long-then-short, adjacent or as far apart as the write allows, triples, quadruples - or a few that do not.
+    A count below the chunk is a fault `a` (chunk stored, smaller count acknowledged) or `s` (only that many bytes
+    stored and acknowledged); a count above it is a fault `a`.  -> (plan, shape) or None."""
+    nch = len(lens)
+    if nch < 2:
+        return None
+    shape = shape or rng.choice(SHAPES)
+    for _ in range(40):
+        if shape.startswith('pair'):
+            m = 2
+            i = rng.randrange(nch - 1)
+            idx = [i, i + 1] if shape.endswith('adjacent') else [0, nch - 1] if rng.random() < 0.6 else \
+                sorted(rng.sample(range(nch), 2))
+            deltas = _zero_sum(rng, 2, rng.choice([1, 1, 2, 4, min(lens)]))
+            if 'long-first' in shape:
+                deltas.reverse()
+        else:
+            m = min(nch, 3 if shape == 'triple' else 4 if shape == 'quad' else rng.randrange(2, 5))
+            r = rng.random()
+            if r < 0.3:
+                i = rng.randrange(nch - m + 1)
+                idx = list(range(i, i + m))
+            elif r < 0.6:
+                idx = [0] + sorted(rng.sample(range(1, nch - 1), m - 2)) + [nch - 1]      # first .. last chunk
+            else:
+                idx = sorted(rng.sample(range(nch), m))
+            m = len(idx)
+            if shape == 'not-cancelling':
+                deltas = [rng.choice([-2, -1, 1, 2, 3]) for _ in idx]
+                if sum(deltas) == 0:
+                    deltas[-1] += 1 if deltas[-1] != -1 else 2
+            else:
+                deltas = _zero_sum(rng, m, rng.choice([1, 2, 3]))
+                rng.shuffle(deltas)
+        if len(idx) != len(deltas) or any(d == 0 for d in deltas):
+            continue
+        if all(0 <= lens[i] + d <= 255 for i, d in zip(idx, deltas)):
+            plan = []
+            for i, d in zip(idx, deltas):
+                t = 's' if d < 0 and rng.random() < 0.35 else 'a'
+                plan.append([i, t, lens[i] + d])
+            return plan, shape
+    return None
+
+
+def _stored_before_error(plan, lens):
+    """bytes of the write that are in the device when the FIRST fault of the plan ends it"""
+    k, t, v = min(plan)
+    return sum(lens[:k]) + (0 if t == 'c' else v if t == 's' else lens[k])
+
+
 def _faulted_write(rng, fid, off, data, wl):
     """(step with a fault at chunk k, step that resumes the write behind what was stored)"""
     nch = max(1, (len(data) + wl - 1) // wl)
+    if nch >= 2 and rng.random() < 0.35:
+        # several chunks of the one write are mis-acknowledged (mostly so that the deviations cancel)
+        lens = _chunk_lens(len(data), wl)
+        mp = multi_ack_plan(rng, lens)
+        if mp is not None:
+            j = _stored_before_error(mp[0], lens)
+            return ({'op': ['write', str(fid), str(off), lean.hexs(data), str(wl)], 'faults': mp[0]},
+                    {'op': ['write', str(fid), str(off + j), lean.hexs(data[j:]), str(wl)]})
     k = rng.randrange(nch)
     clen = min(wl, len(data) - k * wl)
     r = rng.random()
@@ -732,6 +858,29 @@ def directed_histories(rng, wl=16):
                      {'op': ['write', str(fid), str(off), lean.hexs(_blob(rng, ln)), str(wl)], 'faults': [[k, 'a', ack]]},
                      {'op': ['read', str(fid), str(off), str(ln)]}]
             out.append(('write-acknowledge-' + kind, dev, steps))
+    # every named chunk size x every shape of SEVERAL mis-acknowledged chunks in one write (deviations that cancel:
+    # short then long, long then short, adjacent, far apart, triples, quadruples; some that do not cancel):
+    # complete write - same range written again under the plan - resumed behind what was stored - read back
+    for wl in WRITE_LENGTHS + [default_wl, rng.randrange(1, 256)]:
+        for shape in SHAPES:
+            nch = rng.choice([2, 3, 4, 5, 6]) if wl <= 40 else rng.choice([2, 3])
+            ln = nch * wl - rng.choice([0, 0, 1, wl // 2, wl - 1])
+            lens = _chunk_lens(ln, wl)
+            mp = multi_ack_plan(rng, lens, shape)
+            if mp is None:
+                continue
+            n = ln + rng.choice([0, 7, 40])
+            fid = rng.choice([0, 4, 255])
+            off = rng.choice([0, n - ln, rng.randrange(0, n - ln + 1)])
+            data = _blob(rng, ln)
+            dev = {'limit': 32, 'cc': rng.choice(REJECT), 'short': False, 'wmax': 255,
+                   'frus': [(fid, lean.hexs(_blob(rng, n))), (9, lean.hexs(_blob(rng, 40)))]}
+            j = _stored_before_error(mp[0], lens)
+            steps = [{'op': ['write', str(fid), str(off), lean.hexs(_blob(rng, ln)), str(wl)]},
+                     {'op': ['write', str(fid), str(off), lean.hexs(data), str(wl)], 'faults': mp[0]},
+                     {'op': ['write', str(fid), str(off + j), lean.hexs(data[j:]), str(wl)]},
+                     {'op': ['read', str(fid), str(off), str(ln)]}]
+            out.append(('write-several-acknowledges-' + shape, dev, steps))
     return out
 
 
@@ -823,6 +972,20 @@ def run(ctx):
             ctx.sample({'device': dev_line(dev)[:160], 'op': ' '.join(op)[:80], 'outcome': out[:80],
                         'trace': dev10.show_trace(trace)[:240]})
 
+    def faulted(dev, op, lens, shape):
+        """one write on a FRESH Ipmi object under a plan that mis-acknowledges several of its chunks
+        (a one-step history: judged on the request trace, compared with the Lean model under the same plan)"""
+        mp = multi_ack_plan(rng, lens, shape)
+        if mp is None:
+            return
+        res = history_case(ctx, drv, dev, [{'op': op, 'faults': mp[0]}], shipped, 'write-several-acknowledges')
+        ctx.count('gen:write-several-acknowledges')
+        ctx.count('ack-plan:' + mp[1])
+        ctx.count('ack-plan-faults:%d' % len(mp[0]))
+        ctx.count('ack-plan-sum:%s' % ('zero' if sum(v - lens[k] for k, _, v in mp[0]) == 0 else 'non-zero'))
+        ctx.count('ack-plan-first-deviation:%s' % ('shorter' if min(mp[0])[2] < lens[min(mp[0])[0]] else 'longer'))
+        ctx.count('ack-plan-outcome:' + res[0][1].split(' ')[0].split(':')[0])
+
     # 1. directed: every limit 2..40 and a few above, each rejection code, clamped tails 1..5
     lims = list(range(2, 41)) + [63, 64, 65, 127, 128, 254, 255]
     if not quick:
@@ -873,8 +1036,12 @@ def run(ctx):
             wl = 0                  # outside the quantifier: ValueError, no request (compared with the model only)
         elif r < 0.06:
             wl = rng.choice([256, 257, 300])
-        go(dev, ['write', str(fid), str(off), lean.hexs(_blob(rng, ln)), str(wl)], 'write')
+        wdata = _blob(rng, ln)
+        go(dev, ['write', str(fid), str(off), lean.hexs(wdata), str(wl)], 'write')
         ctx.count('write_length:%s' % (wl if wl in WRITE_LENGTHS or wl == 0 else '3-14' if wl < 15 else '18-254' if wl < 255 else '>255'))
+        if 1 <= wl <= 255 and ln > wl and rng.random() < 0.6:
+            # the same write against the same device, several of its chunks mis-acknowledged
+            faulted(dict(dev, wmax=255), ['write', str(fid), str(off), lean.hexs(wdata), str(wl)], _chunk_lens(ln, wl), None)
     # 4b. directed: every named chunk size x lengths around its multiples (default-sized object apart from write_length)
     for wl in WRITE_LENGTHS + ([] if quick else list(range(1, 256))):
         for ln in sorted(set([1, wl - 1, wl, wl + 1, 2 * wl, 2 * wl + 1, 3 * wl - 1]) - set([0])):
@@ -886,6 +1053,19 @@ def run(ctx):
                    'frus': [(fid, lean.hexs(_blob(rng, n))), (8, lean.hexs(_blob(rng, 24)))]}
             go(dev, ['write', str(fid), str(rng.choice([0, n - ln])), lean.hexs(_blob(rng, ln)), str(wl)], 'write-chunk-size')
             ctx.count('write_length:%s' % (wl if wl in WRITE_LENGTHS else '3-14' if wl < 15 else '18-254'))
+    # 4c. directed: every named chunk size (and the default, random ones; all 1..255 in the thorough tier) x every
+    #     shape of 2..4 mis-acknowledged chunks in ONE write on a fresh object (SHAPES: deviations that cancel -
+    #     short/long first, adjacent/apart, triples, quadruples - and some that do not), last chunk full or short
+    for wl in WRITE_LENGTHS + [default_wl, rng.randrange(1, 256), rng.randrange(1, 256)] + ([] if quick else list(range(1, 256))):
+        for shape in SHAPES:
+            nch = rng.choice([2, 3, 4, 5, 6, 8]) if wl <= 40 else rng.choice([2, 3])
+            ln = nch * wl - rng.choice([0, 0, 1, wl // 2, wl - 1])
+            n = ln + rng.choice([0, 3, 20])
+            fid = rng.choice([0, 3, 255])
+            dev = {'limit': 32, 'cc': rng.choice(REJECT), 'short': False, 'wmax': 255,
+                   'frus': [(fid, lean.hexs(_blob(rng, n))), (8, lean.hexs(_blob(rng, 24)))]}
+            faulted(dev, ['write', str(fid), str(rng.choice([0, n - ln])), lean.hexs(_blob(rng, ln)), str(wl)],
+                    _chunk_lens(ln, wl), shape)
     # 5a. directed: an info area whose length byte is 00h (the _read_fru_area variant of the model; not judged)
     zimg = bytes([0x01, 0x00, 0x01, 0x02, 0x00, 0x00, 0x00, 0xfc,
                   0x01, 0x00, 0x17, 0xc0, 0xc0, 0xc1, 0x00, 0xa7,
@@ -978,6 +1158,51 @@ def search(ctx):
                      compare=False)
             if len(ctx.violations) > before:
                 return
+    # several mis-acknowledged chunks in one write: every pair of chunks (both orders of short / long) and the
+    # triples of 2..5-chunk writes for the named chunk sizes, then seeded random plans
+    default_wl = (_consts or {}).get('fru', {}).get('writeLen', 16) or 16
+    for wl in [default_wl] + WRITE_LENGTHS:
+        for nch in (2, 3, 4, 5):
+            if nch * wl > 1200:
+                continue
+            for tail in (0, 1):
+                ln = nch * wl - (tail if wl > 1 else 0)
+                lens = _chunk_lens(ln, wl)
+                plans = []
+                for i in range(nch):
+                    for j in range(i + 1, nch):
+                        for d in (1, 2):
+                            for sgn in (-1, 1):
+                                plans.append([[i, 'a', lens[i] + sgn * d], [j, 'a', lens[j] - sgn * d]])
+                        plans.append([[i, 's', max(lens[i] - 1, 0)], [j, 'a', lens[j] + 1]])
+                        for k in range(j + 1, nch):
+                            plans.append([[i, 'a', lens[i] - 2], [j, 'a', lens[j] + 1], [k, 'a', lens[k] + 1]])
+                            plans.append([[i, 'a', lens[i] + 1], [j, 'a', lens[j] + 1], [k, 'a', lens[k] - 2]])
+                for plan in plans:
+                    if not all(0 <= v <= 255 and v != lens[k] for k, _, v in plan):
+                        continue
+                    dev = {'limit': 32, 'cc': 0xCA, 'short': False, 'wmax': 255,
+                           'frus': [(0, lean.hexs(_blob(rng, ln + 9))), (9, lean.hexs(_blob(rng, ln + 9)))]}
+                    history_case(ctx, drv, dev, [{'op': ['write', '9', str(rng.randrange(0, 9)), lean.hexs(_blob(rng, ln)),
+                                                         str(wl)], 'faults': plan}], False,
+                                 'search-several-acknowledges', compare=False)
+                    if len(ctx.violations) > before:
+                        return
+        if ctx.time_left() < 30:
+            break
+    for _ in range(400):
+        wl = _pick_wl(rng, default_wl)
+        nch = rng.choice([2, 3, 4, 6]) if wl <= 40 else 2
+        ln = nch * wl - rng.choice([0, 1, wl // 2])
+        mp = multi_ack_plan(rng, _chunk_lens(ln, wl))
+        if mp is None:
+            continue
+        dev = {'limit': 32, 'cc': 0xCA, 'short': False, 'wmax': 255,
+               'frus': [(0, lean.hexs(_blob(rng, ln + 9))), (9, lean.hexs(_blob(rng, ln + 9)))]}
+        history_case(ctx, drv, dev, [{'op': ['write', '9', str(rng.randrange(0, 9)), lean.hexs(_blob(rng, ln)), str(wl)],
+                                      'faults': mp[0]}], False, 'search-several-acknowledges', compare=False)
+        if len(ctx.violations) > before:
+            return
     for wl in range(1, 256):
         for n in sorted(set([1, wl - 1, wl, wl + 1, 2 * wl, 2 * wl + 1]) - set([0])):
             dev = {'limit': 32, 'cc': 0xCA, 'short': False, 'wmax': 255,
